@@ -22,7 +22,8 @@ Inductive oxa :=
 | OXLt (cid : Z)
 | OXRegd (cid : Z)
 | OXUdp (cid : Z)
-| OXP (cid : Z) (rv ov : list Z).     (* inside a write: checker rest and c_out of cid *)
+| OXP (cid : Z) (rv ov : list Z)      (* inside a write: checker rest and c_out of cid *)
+| OXFalse.                            (* unreachable *)
 
 Definition oxsem (xa : oxa) (x : outst) (s : lstate) : Prop :=
   match xa with
@@ -36,9 +37,21 @@ Definition oxsem (xa : oxa) (x : outst) (s : lstate) : Prop :=
   | OXUdp cid => cid < l_next s /\ c_udp (getc s cid) = true
   | OXP cid rv ov => cid < l_next s /\ (olive x cid -> getd [] cid (o_rest x) = rv /\ c_out (getc s cid) = ov /\
                        (c_opened (getc s cid) = true \/ c_udp (getc s cid) = true))
+  | OXFalse => False
   end.
 
 Definition sp_of (xa : oxa) : option Z := match xa with OXP cid _ _ => Some cid | _ => None end.
+
+(* what is known of a connection whose callback is in progress: a datagram identity (never
+   opened), or a connection that stays open until its close is announced *)
+Definition hsem (b : bool) (x : outst) (s : lstate) (c : Z) : Prop :=
+  if b then c_udp (getc s c) = true /\ c_opened (getc s c) = false
+  else olive x c -> c_opened (getc s c) = true \/ c_udp (getc s c) = true.
+
+Lemma hsem_same : forall b x x' s s' c,
+  c_opened (getc s' c) = c_opened (getc s c) -> c_udp (getc s' c) = c_udp (getc s c) ->
+  (olive x' c -> olive x c) -> hsem b x s c -> hsem b x' s' c.
+Proof. intros b x x' s s' c Ho Hu Hl. unfold hsem. rewrite Ho, Hu. destruct b; auto. Qed.
 
 (* W: connections inside el_close; hs: connections whose callback is in progress *)
 Record ROut (W : list Z) (hs : list (Z * bool)) (xa : oxa) (u : unit) (x : outst) (s : lstate) : Prop := mkROut {
@@ -55,8 +68,7 @@ Record ROut (W : list Z) (hs : list (Z * bool)) (xa : oxa) (u : unit) (x : outst
   ro_nop : forall cid, olive x cid -> c_opened (getc s cid) = false -> c_udp (getc s cid) = false ->
       c_out (getc s cid) = [];
   ro_W : forall cid, In cid W -> zmem cid (o_closed x) = true;
-  ro_hs : forall cid b, In (cid, b) hs -> cid < l_next s /\ c_udp (getc s cid) = b /\
-      (b = false -> olive x cid -> c_opened (getc s cid) = true);
+  ro_hs : forall cid b, In (cid, b) hs -> cid < l_next s /\ hsem b x s cid;
   ro_x : oxsem xa x s;
   ro_ur : forall cid, c_opened (getc s cid) = true -> c_udp (getc s cid) && c_remote (getc s cid) = false;
   ro_regop : forall fd cid, alookup fd (l_reg s) = Some cid -> olive x cid ->
@@ -77,7 +89,9 @@ Lemma ROut_frame : forall W hs xa u x s s',
 Proof.
   intros W hs xa u x s s' [R1 R2 R3 R4 R5 R6 R7 R8 R9 R10 R11 R12] Hc Hr Hn Ht.
   constructor; intros; rewrite ?Hc, ?Hr, ?Hn in *; eauto.
-  destruct xa; cbn [oxsem] in *; rewrite ?Hc, ?Hr, ?Hn; auto.
+  - match goal with Hin : In _ hs |- _ => destruct (R9 _ _ Hin) as [A B] end. split; [exact A|].
+    eapply hsem_same; [| | |exact B]; auto; rewrite Hc; reflexivity.
+  - destruct xa; cbn [oxsem] in *; rewrite ?Hc, ?Hr, ?Hn; auto.
 Qed.
 
 Lemma ROut_enq : forall W hs xa, enq_ok (ROut W hs xa).
@@ -113,9 +127,10 @@ Proof.
   - intros fd cid H. apply R6 in H. lia.
   - intros cid. rewrite getc_set_next, getc_setc. destruct (Z.eqb_spec cid (l_next s)) as [->|N]; auto.
   - exact R8.
-  - intros cid b Hin. rewrite getc_set_next, getc_setc. destruct (R9 _ _ Hin) as [A B].
-    destruct (Z.eqb_spec cid (l_next s)) as [->|N]; [lia|]. split; [lia|exact B].
-  - destruct xa as [|cid|cid fd|cid|cid|cid|cid rv ov]; cbn [oxsem] in *; cbn [set_next setc l_next l_reg];
+  - intros cid b Hin. destruct (R9 _ _ Hin) as [A B]. split; [lia|].
+    eapply hsem_same; [| | |exact B]; auto; rewrite getc_set_next, getc_setc;
+      destruct (Z.eqb_spec cid (l_next s)) as [->|N]; try lia; reflexivity.
+  - destruct xa as [|cid|cid fd|cid|cid|cid|cid rv ov|]; cbn [oxsem] in *; cbn [set_next setc l_next l_reg];
       rewrite ?getc_set_next, ?getc_setc; auto.
     + destruct (Z.eqb_spec cid (l_next s)) as [->|N]; [|exact R10]. apply R2 in R10. lia.
     + destruct R10 as (A & B & C & D). destruct (Z.eqb_spec cid (l_next s)) as [->|N]; [lia|]. repeat split; auto. lia.
@@ -144,6 +159,8 @@ Proof.
       * rewrite tasks_set_flag in H. apply tasks_enqueue in H. destruct H as [H|H].
         { inversion H; subst. cbn [set_next l_next]. split; [lia|]. rewrite getc_set_next, getc_setc, Z.eqb_refl. exact Hur. }
         { apply R3 in H. exact H. }
+      * destruct (R9 _ _ H) as [A B]. split; [exact A|].
+        eapply hsem_same; [| | |exact B]; auto; rewrite getc_set_flag, getc_enqueue; reflexivity.
       * destruct xa; cbn [oxsem] in *; rewrite ?getc_set_flag, ?getc_enqueue; cbn [set_flag set_queues l_reg l_next];
           rewrite ?l_reg_enqueue, ?l_next_enqueue; auto.
 Qed.
@@ -216,8 +233,9 @@ Proof.
   - exact R6.
   - intros cid0 L. rewrite getc_setc. destruct (Z.eqb_spec cid0 cid) as [->|N]; [|auto]. rewrite Ho, Hu, Hout. auto.
   - exact R8.
-  - intros cid0 b Hin. rewrite getc_setc. destruct (Z.eqb_spec cid0 cid) as [->|N]; [|eauto]. rewrite Ho, Hu. eauto.
-  - destruct xa as [|c0|c0 fd|c0|c0|c0|c0 rv ov]; cbn [oxsem] in *; cbn [setc l_next l_reg]; rewrite ?getc_setc; auto;
+  - intros cid0 b Hin. destruct (R9 _ _ Hin) as [A B]. split; [exact A|].
+    eapply hsem_same; [| | |exact B]; auto; rewrite getc_setc; destruct (Z.eqb_spec cid0 cid) as [->|N]; auto.
+  - destruct xa as [|c0|c0 fd|c0|c0|c0|c0 rv ov|]; cbn [oxsem] in *; cbn [setc l_next l_reg]; rewrite ?getc_setc; auto;
       destruct (Z.eqb_spec c0 cid) as [->|N]; rewrite ?Ho, ?Hf, ?Hu, ?Hre, ?Hout; auto.
   - intros c. rewrite getc_setc. destruct (Z.eqb_spec c cid) as [->|N]; [|auto]. rewrite Ho, Hu, Hre. auto.
   - intros fd c H L. rewrite getc_setc. destruct (Z.eqb_spec c cid) as [->|N]; [|eauto]. rewrite Ho. eauto.
@@ -279,7 +297,8 @@ Proof.
   - intros c L _. destruct (Hl _ L) as [N L']. apply R1; [exact L'|]. cbn [sp_of]. congruence.
   - intros c L. destruct (Hl _ L) as [N L']. auto.
   - intros c Hin. cbn [o_closed]. rewrite zmem_cons, (R8 _ Hin). apply orb_true_r.
-  - intros c b Hin. destruct (R9 _ _ Hin) as (A & B & C). repeat split; auto. intros Eb L. destruct (Hl _ L) as [N L']. auto.
+  - intros c b Hin. destruct (R9 _ _ Hin) as (A & B). split; [exact A|].
+    eapply hsem_same; [| | |exact B]; auto. intros L. apply (Hl _ L).
   - exact I.
   - intros fd c H L. destruct (Hl _ L) as [_ L']. destruct (R12 _ _ H L') as [Hop|Hx]; [left; exact Hop|discriminate Hx].
 Qed.
@@ -395,7 +414,8 @@ Proof.
   - intros c L. rewrite getc_setc. destruct (Z.eqb_spec c cid) as [->|N]; [|auto].
     rewrite Ho, Hu. intros E1 E2. destruct (B L) as (_ & _ & [B3|B3]); congruence.
   - exact R8.
-  - intros c b Hin. rewrite getc_setc. destruct (Z.eqb_spec c cid) as [->|N]; [|eauto]. rewrite Ho, Hu. eauto.
+  - intros c b Hin. destruct (R9 _ _ Hin) as [A0 B0]. split; [exact A0|].
+    eapply hsem_same; [| | |exact B0]; auto; rewrite getc_setc; destruct (Z.eqb_spec c cid) as [->|N]; auto.
   - exact I.
   - intros c. rewrite getc_setc. destruct (Z.eqb_spec c cid) as [->|N]; [|auto]. rewrite Ho, Hu, Hre. auto.
   - intros fd c H L. rewrite getc_setc. destruct (R12 _ _ H L) as [Hop|Hx]; [|discriminate Hx].
@@ -498,18 +518,18 @@ Lemma O_hs_weaken : forall W hs hs' xa w,
 Proof. intros. eapply Inv_weaken; [|eassumption]. intros [] x _ HR. eapply ROut_hs_weaken; eauto. Qed.
 
 Lemma O_hs_add : forall W hs t w, c_opened (wc w t) = true ->
-  OINV (RO W hs) w -> OINV (RO W ((t, c_udp (wc w t)) :: hs)) w.
+  OINV (RO W hs) w -> OINV (RO W ((t, false) :: hs)) w.
 Proof.
   intros W hs t w Ho HI. eapply Inv_weaken; [|exact HI]. intros [] x _ HR.
   destruct HR as [R1 R2 R3 R4 R5 R6 R7 R8 R9 R10 R11 R12]. constructor; auto.
-  intros c b [E|Hin]; [inversion E; subst|eauto]. unfold wc in *. repeat split; auto.
+  intros c b [E|Hin]; [inversion E; subst|eauto]. unfold wc in *. split; [auto|]. intros _. left. exact Ho.
 Qed.
 
 Lemma ROut_close : forall W hs u x s cid e,
   ROut W hs OXNone u x s ->
   c_opened (getc s cid) = true -> alookup (c_fd (getc s cid)) (l_reg s) <> None ->
   exists x', out_step x (EOut (obs "cb" [ASym "close"; AInt cid; e])) = Some x' /\
-  ROut (cid :: W) ((cid, c_udp (getc s cid)) :: hs) OXNone u x' (set_reg s (aremove (c_fd (getc s cid)) (l_reg s))).
+  ROut (cid :: W) ((cid, false) :: hs) OXNone u x' (set_reg s (aremove (c_fd (getc s cid)) (l_reg s))).
 Proof.
   intros W hs u x s cid e [R1 R2 R3 R4 R5 R6 R7 R8 R9 R10 R11 R12] Ho Hr.
   eexists. split; [reflexivity|].
@@ -532,9 +552,10 @@ Proof.
   - intros c L. rewrite getc_set_reg. destruct (Hl _ L) as [_ L']. auto.
   - intros c [<-|Hin]; cbn [o_closed]; rewrite zmem_cons; [rewrite Z.eqb_refl; reflexivity|].
     rewrite (R8 _ Hin). apply orb_true_r.
-  - intros c b Hin. rewrite getc_set_reg. destruct Hin as [E|Hin].
-    + inversion E; subst. split; [auto|]. split; [reflexivity|]. intros _ L. destruct (Hl _ L) as [N _]. congruence.
-    + destruct (R9 _ _ Hin) as (A & B & C). repeat split; auto. intros Eb L. destruct (Hl _ L) as [_ L']. auto.
+  - intros c b Hin. destruct Hin as [E|Hin].
+    + inversion E; subst. split; [auto|]. intros L. destruct (Hl _ L) as [N _]. congruence.
+    + destruct (R9 _ _ Hin) as (A & B). split; [exact A|].
+      eapply hsem_same; [| | |exact B]; auto. intros L. apply (Hl _ L).
   - exact I.
   - intros c. rewrite getc_set_reg. auto.
   - intros fd c. rewrite alookup_aremove, getc_set_reg. destruct (fd =? _); [discriminate|].
@@ -562,8 +583,9 @@ Proof.
   - exact R6.
   - intros c L. rewrite getc_setc. destruct (Z.eqb_spec c cid) as [->|N]; [congruence|auto].
   - intros c Hin. apply R8. right. exact Hin.
-  - intros c b Hin. rewrite getc_setc. destruct (R9 c b (or_intror Hin)) as (A & B & C).
-    destruct (Z.eqb_spec c cid) as [->|N]; [|auto]. repeat split; auto; [congruence|]. intros _ L. congruence.
+  - intros c b Hin. destruct (R9 c b (or_intror Hin)) as (A & B). split; [exact A|].
+    unfold hsem in *. rewrite getc_setc. destruct (Z.eqb_spec c cid) as [->|N]; [|exact B].
+    rewrite Hud, Hrel. destruct b; [tauto|intros L; congruence].
   - exact I.
   - intros c. rewrite getc_setc. destruct (Z.eqb_spec c cid) as [->|N]; [congruence|auto].
   - intros fd c H L. rewrite getc_setc. destruct (Z.eqb_spec c cid) as [->|N]; [congruence|eauto].
@@ -579,8 +601,8 @@ Lemma hs_facts : forall W hs cid b w, In (cid, b) hs ->
   forall u x, ROut W hs OXNone u x (st w) -> cid < l_next (st w) /\
       (olive x cid -> c_opened (wc w cid) = true \/ c_udp (wc w cid) = true).
 Proof.
-  intros W hs cid b w Hin u x HR. destruct (ro_hs _ _ _ _ _ _ HR _ _ Hin) as (A & B & C).
-  split; [exact A|]. intros L. unfold wc. destruct b; [right; exact B|left; auto].
+  intros W hs cid b w Hin u x HR. destruct (ro_hs _ _ _ _ _ _ HR _ _ Hin) as (A & B).
+  split; [exact A|]. intros L. unfold wc, hsem in *. destruct b; [right; tauto|auto].
 Qed.
 
 Lemma opened_facts : forall W hs cid w, c_opened (wc w cid) = true ->
@@ -672,7 +694,7 @@ Proof.
   chain_next.
   { destruct args as [|[t|?|?] [|[?|?|call'] args']]; try dsync.
     destruct (c_opened (wc w t)) eqn:Eo; [|dsync].
-    eapply O_hs_weaken with (hs := (t, c_udp (wc w t)) :: hs); [intros c Hc; right; exact Hc|].
+    eapply O_hs_weaken with (hs := (t, false) :: hs); [intros c Hc; right; exact Hc|].
     eapply (mo_hcall _ M); [left; reflexivity|]. apply O_hs_add; assumption. }
   dsync.
 Qed.
@@ -684,12 +706,12 @@ Proof.
   destruct (c_opened (wc w cid)) eqn:Eo; cbn [negb orb] in E; [|inversion E; subst; exact HI].
   destruct (alookup (c_fd (wc w cid)) (l_reg (st w))) as [rc|] eqn:Er; [|inversion E; subst; exact HI].
   set (w2 := emit _ (with_st w _)) in E.
-  assert (H2 : OINV (RO (cid :: W) ((cid, c_udp (wc w cid)) :: hs)) w2).
+  assert (H2 : OINV (RO (cid :: W) ((cid, false) :: hs)) w2).
   { subst w2. eapply Inv_set_emit; [exact HI|reflexivity|].
     intros [] x _ HR. cbn [ustep]. unfold wc in *. apply ROut_close; auto. congruence. }
   clearbody w2.
   destruct (handler f cid w2) as [[act rep] w3] eqn:Eh.
-  assert (Hin : In (cid, c_udp (wc w cid)) ((cid, c_udp (wc w cid)) :: hs)) by (left; reflexivity).
+  assert (Hin : In (cid, false) ((cid, false) :: hs)) by (left; reflexivity).
   pose proof (mo_handler _ M _ _ _ _ _ _ _ Hin H2 Eh) as H3.
   pose proof (mo_drain _ M cid _ _ _ _ Hin H3) as H4.
   set (w4 := close_drain f cid w3) in *. clearbody w4.
